@@ -598,6 +598,56 @@ func splitTop(s string) []string {
 	return out
 }
 
+// lint reports contracts whose ensures/defines relate a ghost variable to its old value although the
+// ghost is not listed in modifies (such a clause would be assumed on an unchanged state: vacuity risk).
+func (db *DB) lint() []string {
+	var out []string
+	var walk func(e *CExpr, inOld bool, in, outside map[string]bool)
+	walk = func(e *CExpr, inOld bool, in, outside map[string]bool) {
+		if e == nil {
+			return
+		}
+		if e.Kind == "ident" {
+			if _, ok := db.ghosts[e.Name]; ok {
+				if inOld {
+					in[e.Name] = true
+				} else {
+					outside[e.Name] = true
+				}
+			}
+		}
+		o := inOld || e.Kind == "old"
+		walk(e.X, o, in, outside)
+		walk(e.Y, o, in, outside)
+		for _, a := range e.Args {
+			walk(a, o, in, outside)
+		}
+	}
+	for _, fc := range db.order {
+		if fc.Pure {
+			continue
+		}
+		mods := map[string]bool{}
+		for _, m := range fc.Modifies {
+			mods[m] = true
+		}
+		check := func(cs []*Clause) {
+			for _, c := range cs {
+				in, outside := map[string]bool{}, map[string]bool{}
+				walk(c.Expr, false, in, outside)
+				for g := range in {
+					isSpawn := strings.HasPrefix(g, "spawn")
+					if outside[g] && !mods[g] && !(isSpawn && mods["spawn"]) {
+						out = append(out, fmt.Sprintf("%s:%d: %s: clause relates ghost %s to old(%s) but %s is not in modifies", c.File, c.Line, fc.Target, g, g, g))
+					}
+				}
+			}
+		}
+		check(fc.Ensures)
+	}
+	return out
+}
+
 func loadContracts(repo, verif string) (*DB, error) {
 	db := newDB()
 	// external specs first (ghosts, externs, interface contracts of dependencies)
@@ -615,6 +665,9 @@ func loadContracts(repo, verif string) (*DB, error) {
 				return nil, err
 			}
 		}
+	}
+	if l := db.lint(); len(l) > 0 {
+		return nil, fmt.Errorf("contract lint:\n  %s", strings.Join(l, "\n  "))
 	}
 	return db, nil
 }
